@@ -129,7 +129,7 @@ def explore(cid, tier, replay):
         rc = checklib.finish(cid, tier, "model_checking", RULE[cid], reports, t0, ASSUME[cid], extra_cov=extra, model=True)
         if not complete:
             import json
-            p = os.path.join(checklib.VERIF, "evidence", cid + ".json")
+            p = os.path.join(checklib.OUTROOT, "evidence", cid + ".json")
             ev = json.load(open(p))
             ev["coverage"]["exhaustive"] = False
             json.dump(ev, open(p, "w"), indent=1)
